@@ -22,11 +22,18 @@ package filter
 import (
 	"fmt"
 	"strings"
+	"text/scanner"
 
 	"github.com/alecthomas/participle/v2"
+	"github.com/alecthomas/participle/v2/lexer"
 )
 
 var DefaultParserOptions = []participle.Option{
+	// the filter language has no comments: hand them to the parser as tokens,
+	// which the grammar rejects, instead of skipping them
+	participle.Lexer(lexer.NewTextScannerLexer(func(s *scanner.Scanner) {
+		s.Mode &^= scanner.SkipComments
+	})),
 	participle.UseLookahead(50),
 	// attribute values (or prefixes) need to be unquoted
 	participle.Unquote("String"),
